@@ -265,6 +265,18 @@ Definition check_relay (c : list proto * list proto * option (list proto) * list
   let '(prios, take, arg, reg, obs) := c in
   outcome_eqb (relay prios take arg (reg_of reg)) obs.
 
+(* (1b) Relayer.main_protocol and Relayer.register on the same bare Relayer:
+        priorities, takeover list, protocols registered (in order), observed main_protocol *)
+Definition check_main (c : list proto * list proto * list proto * option proto) : bool :=
+  let '(prios, take, regd, obs) := c in
+  opt_beq proto_eqb (main_protocol (fun p => existsb (proto_eqb p) regd) (take ++ prios)) obs.
+
+(*      priorities, protocols registered so far, protocol being registered, observed new
+        registration order (None = RuntimeError) *)
+Definition check_register (c : list proto * list proto * proto * option (list proto)) : bool :=
+  let '(prios, regd, p, obs) := c in
+  opt_beq (list_beq proto_eqb) (r_register prios regd p) obs.
+
 (* (2) one member of the real facade: row of the generated table, relayer priorities,
        takeover list, gate, registration order, registration as seen for the member, observation *)
 Definition check_facade (rows : list row) (prio_of : iface -> list proto)
